@@ -312,6 +312,7 @@ func runC11(c *Ctx) {
 	fsmResponseChecked(c, "R3")
 	c.Rule("R8", "request state is per request: handlers do not write to variables of their factory", 10)
 	handlerStatePerRequest(c, "R8")
+	errorResponseReturns(c, "R1")
 	checkUnlocks(c, "R5", []string{"balloon", "balloon/hyper", "consensus", "api/apihttp", "api/mgmthttp"})
 	hyperLeafListDiscipline(c, "R6")
 	lruDiscipline(c, "R7")
